@@ -189,3 +189,18 @@ Qed.
 Example parse_rx_layout_example :
   exists m, parse_rx ([7; 0; 41; 111; 255; 120; 128; 0] ++ repeat 0 148 ++ [0; 0]) = Ok m /\ r_fn m = Some 2715647 /\ r_rssi m = Some (-120) /\ r_toa m = Some (-32768).
 Proof. eexists. split; [vm_compute; reflexivity|]. repeat split. Qed.
+
+(* the MTS octet the encoder writes for a valid version-1 message, in arithmetic *)
+Lemma gen_mts_val m : spec_rx m -> r_ver m = 1 ->
+  gen_mts m = if r_nope m then 128
+              else match r_tsc m, r_mod m, r_tset m with
+                   | Some t, Some i, Some s => t + 8 * (nth i [0; 4; 6; 8; 10; 12] 0 + s)
+                   | _, _, _ => 0 end.
+Proof.
+  intros [_ [_ [_ [Hmts _]]]] Hver. unfold gen_mts. destruct (r_nope m) eqn:En; [apply gen_nope|].
+  destruct (Hmts Hver eq_refl) as [i [s [t [-> [Hi [-> [-> [Ht Hs]]]]]]]].
+  assert (Hts : tset_ok i s = true /\ 0 <= s < 4) by (unfold tset_ok; destruct (Nat.eqb i 0); split; lia).
+  destruct Hts as [Hts Hs4]. fold (mts_val i s t).
+  destruct (mts_rt i s t Hi Hts Hs4 ltac:(lia)) as [_ [_ ->]].
+  unfold mod_coding. rewrite gen_mods. do 6 (destruct i as [|i]; [reflexivity|]). lia.
+Qed.
